@@ -62,6 +62,17 @@ CLAIMS = {
              'argument binding (SQLBuilder.__init__/make_param/adapter/Param.__str__) is BOUNDED (<= 4 occurrences, all partitions) and counted separately.',
         note='Trusted: reference lexers (SQL literal and LIKE tokenizer validated against sqlite3 every run; MySQL backslash mode and PostgreSQL/MySQL default LIKE '
              'escape from the manuals), str.replace with 1-char needle is char-wise, SQL REPLACE equals Python replace, Lean kernel. Known finding: MySQL backslash in literals.'),
+    'C30': dict(
+        text='Proof of the cache clause for every $-free statement text (symbolic string, arbitrary other content incl. %) and every paramstyle: adapt_sql and '
+             'parse_raw_sql store their result under exactly the key they look up, write one key, return a hit untouched and pass a $-free statement through '
+             'unchanged, so the outcome cannot depend on statements adapted earlier. The layout of $-expressions ($name, $obj.attr, $f(..), $d[..], $name;, $$, '
+             '% text) into placeholders and argument tuples/dicts in order is BOUNDED (statements of <= 3/4 segments from 9 kinds x 5 styles), counted separately.',
+        note='Symbolic contract precondition: no "$" in the text (str.index forks on ValueError); statements with $ are only covered by the bounded layout contract. '
+             'Evaluation of $expr in the caller frame is not covered.'),
+    'C31': dict(
+        text='Proof for ALL strings (key parts) that Bag._reduce_composite_pk is uniquely decodable and therefore injective on tuples of equal arity: the real function '
+             'run on symbolic strings gives enc(a),enc(b),... with one replace chain; local decoding conditions discharged by z3, lifted by the Lean lemma.',
+        note='Only the key-encoding clause of C31. to_dict()/to_json() contents and pickling round trips depend on session state and histories: not covered (stated in DESIGN).'),
 }
 
 _NOT_BUILT = 'within reach of the technique per DESIGN.md, check not built yet'
